@@ -48,7 +48,7 @@ COMPONENTS = {
     "stub": ["user callables", "thread scheduler (seeded baton passing)", "log device (write raises OSError)", "durable store"],
 }
 ASSUMPTIONS = ["pre-emption points are actor calls and Python line boundaries inside lbfgsb/*"]
-PLAN_TIMEOUT = 300
+PLAN_TIMEOUT = 600
 IPRINTS = [-1, 0, 1, 50, 99, 100, 101, 1000]
 LOGGERS = [None, "collect", "failing", "disabled"]
 
